@@ -382,6 +382,22 @@ pub fn runtime() -> Runtime<NoCtx> {
             lp!("out_unit", vec![]);
         }
 
+        /// registered constants (values mirrored in `host_consts`)
+        const HC_U8: u8 = 200;
+        const HC_I16: i16 = -12345;
+        const HC_U32: u32 = 4_000_000_000;
+        const HC_I64: i64 = -5_000_000_000;
+        const HC_F64: f64 = 2.5;
+        const HC_BOOL: bool = true;
+        const HC_CHAR: char = 'é';
+        const HC_STR: RotoString = RotoString::from("héllo");
+        const HC_OPT: Option<u32> = Some(77);
+        const HC_OPT_NONE: Option<i64> = None;
+        const HC_OPT_STR: Option<RotoString> = Some(RotoString::from("opt"));
+        const HC_VER: roto::Verdict<u32, RotoString> = roto::Verdict::Accept(7);
+        const HC_VER_R: roto::Verdict<RotoString, i64> = roto::Verdict::Reject(-9);
+        const HC_VER_S: roto::Verdict<u16, RotoString> = roto::Verdict::Reject(RotoString::from("why"));
+
         /// 24-byte drop-tracked type
         #[clone] type Trk = Val<Trk>;
         /// zero-sized drop-tracked type
@@ -468,4 +484,28 @@ pub fn runtime() -> Runtime<NoCtx> {
         rt.add(l).expect("harness library registers");
     }
     rt
+}
+
+
+/// The registered constants of the harness runtime with their values, for the generator
+/// (which lets programs read them like any visible name) and the reference interpreter.
+pub fn host_consts() -> Vec<(&'static str, crate::rg::ast::Ty, V)> {
+    use crate::rg::ast::Ty;
+    let ver = |a: Ty, r: Ty| Ty::Verdict(Box::new(a), Box::new(r));
+    vec![
+        ("HC_U8", Ty::Int(IntTy::U8), V::Int(IntTy::U8, 200)),
+        ("HC_I16", Ty::Int(IntTy::I16), V::Int(IntTy::I16, -12345)),
+        ("HC_U32", Ty::Int(IntTy::U32), V::Int(IntTy::U32, 4_000_000_000)),
+        ("HC_I64", Ty::Int(IntTy::I64), V::Int(IntTy::I64, -5_000_000_000)),
+        ("HC_F64", Ty::F64, V::F64(2.5)),
+        ("HC_BOOL", Ty::Bool, V::Bool(true)),
+        ("HC_CHAR", Ty::Char, V::Char('é')),
+        ("HC_STR", Ty::Str, V::Str("héllo".into())),
+        ("HC_OPT", Ty::opt(Ty::Int(IntTy::U32)), V::Opt(Some(Box::new(V::Int(IntTy::U32, 77))))),
+        ("HC_OPT_NONE", Ty::opt(Ty::Int(IntTy::I64)), V::Opt(None)),
+        ("HC_OPT_STR", Ty::opt(Ty::Str), V::Opt(Some(Box::new(V::Str("opt".into()))))),
+        ("HC_VER", ver(Ty::Int(IntTy::U32), Ty::Str), V::Enum(0, "Accept".into(), vec![V::Int(IntTy::U32, 7)])),
+        ("HC_VER_R", ver(Ty::Str, Ty::Int(IntTy::I64)), V::Enum(1, "Reject".into(), vec![V::Int(IntTy::I64, -9)])),
+        ("HC_VER_S", ver(Ty::Int(IntTy::U16), Ty::Str), V::Enum(1, "Reject".into(), vec![V::Str("why".into())])),
+    ]
 }
